@@ -249,8 +249,10 @@ func Monitor(spec *Spec, tr *Trace) []Finding {
 				if n > 1 {
 					add("C14", "task t%d is reported as skipped %d times", t, n)
 				}
-				if spDependents[t] && len(failed) == 0 && !cancelled {
-					add("C14", "task t%d was skipped through ErrorSkipParents but is reported", t)
+				if spDependents[t] {
+					// "its transitive dependents are not started, are not reported": the specific clause wins over the
+					// general one also when a failure or a cancellation happened elsewhere in the same run
+					add("C14", "task t%d was skipped through ErrorSkipParents (it depends on a task that returned it) but is reported as skipped", t)
 				}
 			}
 		}
